@@ -161,19 +161,31 @@ class Machine(object):
         return None
 
 
-def next_op(rng, bag):
+REGIMES = (1.0, 1.0, 1.0, 1e-9, 1e6)
+
+
+def next_op(rng, bag, scale=1.0):
+    """scale: weight regime of this history (all pool weights multiplied by it);
+    a history made only of tiny weights makes the running total itself tiny."""
+    op = _next_op(rng, bag, scale)
+    return op
+
+
+def _next_op(rng, bag, scale):
+    W = [w * scale for w in W_POOL]
+    D = [d * scale for d in D_POOL]
     tot = sum(bag.values())
     heavy = max(bag, key=lambda k: bag[k]) if bag else None
     c = rng.random()
     if not bag or c < 0.3:
         it = rng.randrange(len(ITEMS))
-        w = rng.choice(W_POOL)
+        w = rng.choice(W)
         if rng.random() < 0.25 and heavy is not None:
-            it, w = heavy, rng.choice([x for x in W_POOL if x <= bag[heavy]])
+            it, w = heavy, rng.choice([x for x in W if x <= bag[heavy]] or [0.0])
         return ["insert", it, w]
     if c < 0.5:
         it = rng.choice(sorted(bag)) if rng.random() < 0.8 else rng.randrange(len(ITEMS))
-        return ["update", it, rng.choice(D_POOL)]
+        return ["update", it, rng.choice(D)]
     if c < 0.72:
         return ["remove", heavy if rng.random() < 0.6 else rng.choice(sorted(bag))]
     if c < 0.87 and tot > 0:
@@ -220,8 +232,11 @@ def run_seeded(rng, nops, stats):
     m.stats = stats
     ops = []
     stats["_probed"] = []
+    scale = rng.choice(REGIMES)
+    if scale != 1.0:
+        stats["regime_%g" % scale] = 1
     for _ in range(nops):
-        op = next_op(rng, m.bag)
+        op = next_op(rng, m.bag, scale)
         ops.append(op)
         if op[0] == "remove" and m.bag and op[1] == max(m.bag, key=lambda k: m.bag[k]):
             stats["fault_F5_heaviest_removed"] = stats.get("fault_F5_heaviest_removed", 0) + 1
